@@ -143,7 +143,8 @@ def gen_codec(thorough):
 def run(ck, tier):
     thorough = tier == "thorough"
     binary = vf.build_harness("serde")
-    binary_dev = vf.build_harness("serde", profile="dev")
+    # debug assertions + overflow checks (what `cargo test` builds): thorough tier only, a second cargo build
+    binary_dev = vf.build_harness("serde", profile="dev") if thorough else None
     rc, out, err = vf.run_harness(binary, ["codec", "menu"], timeout=60)
     if rc != 0:
         raise vf.ToolError("harness codec menu failed: " + err[-500:])
@@ -232,9 +233,9 @@ def run(ck, tier):
         codec = [s for i, s in enumerate(codec) if i not in drop]
     replay_scenarios(ck, binary, "vint", vint)
     replay_scenarios(ck, binary, "codec", codec)
-    # debug assertions and overflow checks on (what `cargo test` builds); child-process cases already ran above
-    replay_scenarios(ck, binary_dev, "vint-dev-profile", vint)
-    replay_scenarios(ck, binary_dev, "codec-dev-profile", codec, ["--skip-big"])
+    if binary_dev:      # child-process cases already ran above
+        replay_scenarios(ck, binary_dev, "vint-dev-profile", vint)
+        replay_scenarios(ck, binary_dev, "codec-dev-profile", codec, ["--skip-big"])
     ck.part("codec", case_kinds=kinds, expected_verdicts=verdicts, oversized_length_prefix_cases=nbig,
             oversized_length_prefix_cases_not_replayed_in_quick_tier=skipped_big)
 
@@ -245,7 +246,7 @@ def run(ck, tier):
         "values": "3-10 representative values per type (incl. vec<u8>/string of length %s)" % ("127,128,300,16383,16384" if thorough else "127,128"),
         "mutations": "every truncation; every position x {00,01,02,7F,80,C0,FF}%s; both ends only for encodings > 48 bytes" % (" with and without trailing bytes" if thorough else ""),
         "raw_inputs": "all 256 bool bytes / Option tags; UTF-8: all single bytes, 15 lead bytes x all second bytes%s, 3/4-byte boundary families, 37 hand-picked; non-minimal and oversized length prefixes; unsorted and duplicate set/map entries" % (", all two-byte strings" if thorough else ""),
-        "readers": "SliceReader, std::io::Cursor, ReadAdapter (chunk patterns [256],[1],[2],[3],[1,3],[5,1]), read_from_bytes; release and dev profile",
+        "readers": "SliceReader, std::io::Cursor, ReadAdapter (chunk patterns [256],[1],[2],[3],[1,3],[5,1]), read_from_bytes; release profile%s" % (" and dev profile (debug assertions, overflow checks)" if thorough else ""),
     }
     ck.exhaustive = False
     ck.assumptions = [
